@@ -183,7 +183,7 @@ func runC10(c *eng.Ctx) {
 			}
 		}
 		var tv *ssa.Lookup
-		for _, b := range gs.Blocks {
+		for _, b := range eng.BlocksT(gs) {
 			for _, in := range b.Instrs {
 				if l, ok := in.(*ssa.Lookup); ok && eng.DependsOnField(l.X, "flow.StorageExecuteContext.TagFilterResult") {
 					tv = l
@@ -449,7 +449,7 @@ func emptyMatchIsNotAnError(c *eng.Ctx) {
 	tl := c.Fn("query/operator.tagValuesLookup.findTagValueIDsByExpr")
 	look := c.One(tl, invokeOn(".metaDB", "FindTagValueDsByExpr"), "metaDB.FindTagValueDsByExpr")
 	var put *ssa.MapUpdate
-	for _, b := range tl.Blocks {
+	for _, b := range eng.BlocksT(tl) {
 		for _, in := range b.Instrs {
 			if mu, ok := in.(*ssa.MapUpdate); ok && eng.DependsOnField(mu.Map, "flow.StorageExecuteContext.TagFilterResult") {
 				put = mu
